@@ -101,8 +101,17 @@ def evStr : Ev → String
 def traceStr (tr : List Ev) : String :=
   if tr.isEmpty then "-" else String.intercalate "," (tr.map evStr)
 
+/-- no handler of the chain aborts (beyond the handler limit an abort moves the cursor BACKWARDS and the Go loop does
+    not terminate, so such a chain cannot be run on the implementation) -/
+def abortFree (hs : List Handler) : Bool :=
+  hs.all fun h => h.all fun a => match a with
+    | .abort | .abortThen | .abortWithStatus _ | .abortWithMsg _ => false
+    | _ => true
+
 def chainServeBase (hs : List Handler) : String :=
-    if (hs.length : Int) ≤ abortIndex then
+    -- within the limit of C05, or (C04 speaks about every request) a longer chain that still fits the 8-bit cursor
+    -- and in which nobody aborts: the model follows the cursor arithmetic exactly (wrap8), so it is answered too
+    if (hs.length : Int) ≤ abortIndex ∨ (hs.length ≤ 127 ∧ abortFree hs) then
       match serve hs with
       | .ok st =>
         let kind := if st.trace.any Ev.isAbort then "ab" else "ok"
